@@ -18,9 +18,14 @@ RULE = ("Exhaustive: every operator tree with <= 2 (quick) / <= 3 (thorough) ope
         "unary operators (quick adds 3-operator trees over one representative per precedence level), operands "
         "rotated through a pool of 27 primaries, rendered with minimal parentheses per R701-R723 with and "
         "without blanks. Random: trees to depth 6 with redundant parentheses, inside Expr() and inside "
-        "assignment / IF / actual-argument / subscript contexts of full programs. Non-trivial = two operators "
+        "assignment / IF / actual-argument / subscript contexts of full programs and in 32 further statement "
+        "contexts (I/O items and units, DO / FORALL / ALLOCATE / array bounds, WHERE / IF-THEN / ELSE-IF / DO-WHILE "
+        "conditions, SELECT CASE, initialisations, PARAMETER, kind and length selectors, keyword arguments, array "
+        "constructors, implied-DOs, substrings, strides, pointer targets, RETURN, ASSOCIATE, computed GO TO, "
+        "arithmetic IF) where the expression node is located by its text. Non-trivial = two operators "
         "of different precedence levels or two of the same level.")
-EXHAUSTIVE_RULE = "all shapes x all operator assignments up to the stated node count x 2 spacings"
+EXHAUSTIVE_RULE = ("all shapes x all operator assignments up to the stated node count x 2 spacings; every fifth tree "
+                   "also inside one of the 32 statement contexts, in rotation")
 MIN_NONTRIVIAL = 0.3
 ASSUMPTIONS = ["reference grammar vf/exprs.py (table from R701-R723; cross-checked against a table-free "
                "recursive-descent implementation by selftest)"]
@@ -142,6 +147,12 @@ def exhaustive(tier, flags):
                         yield make_case(tree, sp, "expr", "f2003" if idx % 2 else "f2008", idx)
                     if n <= 2 and any(o.startswith(".") for o in bops + uops):
                         yield make_case(tree, " ", "fixed", "f2003", idx)
+                    if idx % 5 == 0:
+                        # every fifth tree also inside one of the statement contexts, in rotation
+                        ctxs = sorted(MORE_CONTEXTS)
+                        ctx = ctxs[(idx // 5) % len(ctxs)]
+                        if not (ctx == "do_bound" and "=" in "".join(bops)):
+                            yield make_case(tree, " ", ctx, "f2008" if idx % 2 else "f2003", idx)
 
 
 CHAIN_CLASSES = [["+", "-"], ["*", "/"], ["//"], [".and."], [".or."], [".eqv.", ".neqv."], [".myop.", ".x."], ["**"]]
@@ -206,9 +217,15 @@ def build(rnd, tier, flags):
         return make_case(tree, r.pick([" ", ""]), r.pick(["expr", "assign", "arg"]), r.pick(["f2003", "f2008"])), {}
     tree = rand_tree(r, r.n(2, 6))
     ctx = r.pick(["expr", "assign", "if", "arg", "subscript", "expr", "fixed"])
+    if r.chance(35):
+        ctx = r.pick(sorted(MORE_CONTEXTS))
     root = tree
     while root[0] == "par":
         root = root[1]
+    if ctx in MORE_CONTEXTS and root[0] == "atom":
+        ctx = "assign"          # a lone primary carries no grouping (and typed contexts reject literals of another type)
+    if ctx == "do_bound" and "=" in X.render(X.minimal(tree)):
+        ctx = "assign"          # 'do i = 1, a == b' is not a valid bound and the '=' confuses the loop-control split
     if ctx == "if" and root[0] == "atom":
         # IF (<literal>) is rejected by design (C705: logical-expr shall be of type logical)
         ctx = "assign"
@@ -249,6 +266,59 @@ WRAP = {
 }
 
 
+# further statement contexts: the expression node is found generically as the outermost node whose text is the
+# expression (printing never adds parentheses, so a mis-grouped tree still prints the same text)
+MORE_CONTEXTS = {
+    "print_item": "program p\nprint *, 'x', %s, 1\nend\n",
+    "write_item": "program p\nwrite(6, *) %s, k\nend\n",
+    "io_unit": "program p\nwrite(unit = %s, fmt = *) k\nend\n",
+    "do_bound": "program p\ndo i = 1, %s, 2\nend do\nend\n",
+    "do_while": "program p\ndo while (%s)\nend do\nend\n",
+    "where_mask": "program p\nwhere (%s) vv = 1\nend\n",
+    "if_then": "program p\nif (%s) then\nelse if (l0) then\nend if\nend\n",
+    "else_if": "program p\nif (l0) then\nelse if (%s) then\nend if\nend\n",
+    "select_case": "program p\nselect case (%s)\ncase default\nend select\nend\n",
+    "case_value": "program p\nselect case (k)\ncase (%s)\nend select\nend\n",
+    "init": "program p\nreal :: vv = %s\nend\n",
+    "parameter": "program p\nparameter (vv = %s)\nend\n",
+    "dim_bound": "subroutine p(n)\nreal :: vv(2, %s)\nend\n",
+    "char_len": "subroutine p(n)\ncharacter(len = %s) :: cc\nend\n",
+    "kind": "program p\nreal(kind = %s) :: vv\nend\n",
+    "keyword_arg": "program p\ncall sub(1, key = %s)\nend\n",
+    "function_arg": "program p\nres = fn(1, %s)\nend\n",
+    "ac_value": "program p\nvv = [1, %s]\nend\n",
+    "ac_implied_do": "program p\nvv = (/ (%s, i = 1, 3) /)\nend\n",
+    "forall_bound": "program p\nforall (i = 1:%s) vv(i) = 1\nend\n",
+    "allocate_bound": "program p\nallocate(vv(%s))\nend\n",
+    "component_subscript": "program p\nres = obj%%cc(%s)\nend\n",
+    "substring_bound": "program p\ncc = ss(%s:)\nend\n",
+    "section_stride": "program p\nvv = ww(1:9:%s)\nend\n",
+    "lhs_subscript": "program p\nvv(%s) = 1\nend\n",
+    "data_implied_do_bound": "program p\ndata (vv(i), i = 1, %s) /3*0/\nend\n",
+    "pointer_target": "program p\npp => tt(%s)\nend\n",
+    "return_code": "subroutine p(*)\nreturn %s\nend\n",
+    "assoc_selector": "program p\nassociate (zz => %s)\nend associate\nend\n",
+    "stmt_in_if": "program p\nif (l0) res = %s\nend\n",
+    "computed_goto": "program p\ngo to (10, 20), %s\n10 continue\n20 continue\nend\n",
+    "arith_if": "program p\nif (%s) 10, 20, 10\n10 continue\n20 continue\nend\n",
+}
+def _squash(t):
+    return "".join(t.split()).lower()
+
+
+def _find_expr_node(tree, text):
+    from vf.treeform import iter_nodes
+    want = _squash(text)
+    for n in iter_nodes(tree):
+        if isinstance(n, (two_utils.BinaryOpBase, two_utils.UnaryOpBase, F03.Parenthesis)) or not getattr(n, "children", None):
+            try:
+                if _squash(str(n)) == want:
+                    return n
+            except Exception:  # noqa: BLE001
+                continue
+    return None
+
+
 def evaluate(case):
     res = _evaluate(case)
     if not res.ok:
@@ -274,6 +344,13 @@ def _evaluate(case):
             return Result(False, "reject:Expr", nontrivial, labels, {"error": str(e)[:200], "expr": text})
         except Exception as e:  # noqa: BLE001
             return Result(False, "exception:%s" % type(e).__name__, nontrivial, labels, {"error": str(e)[:200]})
+    elif ctx in MORE_CONTEXTS:
+        o = guarded_parse(MORE_CONTEXTS[ctx] % text, std=std)
+        if o.kind != "tree":
+            return Result(False, "reject:%s:%s" % (ctx, o.kind), nontrivial, labels, {"error": o.text, "expr": text})
+        node = _find_expr_node(o.tree, text)
+        if node is None:
+            return Result(False, "no-node:%s" % ctx, nontrivial, labels, {"printed": str(o.tree), "expr": text})
     else:
         tmpl, cls, pick = WRAP[ctx]
         o = guarded_parse(tmpl % text, std=std)
